@@ -249,6 +249,7 @@ def dfs_real(ctx, names, start, limit=None, rng=None, raw=False, tt=None, w_clos
             scheds.append(ch)
         return traces, scheds
     stack = [[]]
+    cap = 1500 if ctx.quick else 40000
     while stack:
         pre = stack.pop()
         tr, fan, ch = run(pre)
@@ -257,6 +258,16 @@ def dfs_real(ctx, names, start, limit=None, rng=None, raw=False, tt=None, w_clos
         for i in range(len(pre), len(fan)):
             for c in range(1, fan[i]):
                 stack.append((pre + [0] * (i - len(pre)))[:i] + [c])
+        if len(traces) >= cap:
+            # a block with this many line-level schedules is not the one this family was sized for (the unchanged tree has a few
+            # hundred): stop the enumeration here and sample the rest at random, so that the check ends in bounded time
+            ctx.extra['line_level_enumeration_truncated'] = True
+            rng = random.Random(ctx.seed + len(traces))
+            for _ in range(300):
+                tr, fan, ch = run([])
+                traces.append(tr)
+                scheds.append(ch)
+            break
     return traces, scheds
 
 
